@@ -220,7 +220,7 @@ class FakeNode(object):
             else:
                 nc.ready = True
                 nc.send(s, C.READY, b'')
-            if v >= 5:
+            if 5 <= v < 0x40:
                 nc.enable_segments()
             return
         if op == C.AUTH_RESPONSE:
